@@ -67,7 +67,7 @@ Proof.
         destruct (ensure_uniques c1 d') as [touched|e].
         -- rewrite (expire_if_no_ttl touched c1 (no_ttl_with_docs c _ HT)) in H. fin H.
            right. exists [], k, d, todo, d'. repeat split; auto.
-        -- destruct e; try discriminate. destruct (expire c1); discriminate.
+        -- destruct e; try discriminate; destruct (expire c1); discriminate.
     + apply IH in H; [|exact HT]. destruct H as [(-> & -> & H)|H].
       * left. split; [reflexivity|]. split; [reflexivity|].
         destruct H as [[-> H]| ->]; [left|right; reflexivity].
